@@ -721,6 +721,11 @@ func execC16PMul(c *vf.Ctx, d *vf.Driver, cs c16pCase) {
 	if args == nil && !panicked {
 		return
 	}
+	if !panicked && !cs.Alias && cs.Which != "scalarMultChain" {
+		if now := c16pCoords(P); now != cs.Regs[0] {
+			c16pFail(c, "property", "c16p-argument-modified", cs.Which+": the point argument was modified by the call", cs, fmt.Sprint(now), fmt.Sprint(cs.Regs[0]))
+		}
+	}
 	var res vf.Wire
 	var err error
 	if cs.Which == "scalarMultChain" {
@@ -812,6 +817,8 @@ func execC16P(c *vf.Ctx, d *vf.Driver, cs c16pCase) {
 		execC16PMul(c, d, cs)
 	case "spec":
 		execC16PSpec(c, d, cs)
+	case "args":
+		execC16PArgs(c, cs)
 	}
 }
 
@@ -889,6 +896,8 @@ func runC16P(c *vf.Ctx) {
 		if w == 0 {
 			c16pCheckConsts(c, d)
 		}
+		// arguments are not modified, histories (pure Go, fast): first, so that a slip shows at once
+		runC16PArgs(c, r, c.Budget(12, 120))
 		for i := 0; i < nProg && !c.Failed(); i++ {
 			cs := c16pGenProg(r)
 			execC16P(c, d, cs)
